@@ -571,13 +571,24 @@ pub fn plan_histories(tier: Tier) -> Vec<Plan> {
         BaseWalk::Glob("a/**".into()),
         BaseWalk::Glob("{a,b}/**".into()),
     ];
+    // worlds with symbolic links (read as files): a tree verdict on a link must remove nothing
+    let link_menu = vec![
+        Layer::Filter(0),
+        Layer::Filter(1),
+        Layer::Not("l/**".into(), NotForm::Text),
+        Layer::Not("**/l".into(), NotForm::Text),
+    ];
+    let link_plan = |max_entries: usize, k: usize| Plan {
+        worlds: crate::props_links::link_worlds(Tier::Quick).into_iter().filter(|w| w.entries() <= max_entries && w.describe().contains("->")).collect(),
+        bases: vec![BaseWalk::Path, BaseWalk::Glob("**".into()), BaseWalk::Glob("{a,b}/**".into())],
+        stacks: subsets_up_to(&link_menu, 2),
+        deviations: k,
+    };
     match tier {
-        Tier::Quick => vec![Plan {
-            worlds: fsworld::worlds(3, &NAMES, 3),
-            bases,
-            stacks: subsets_up_to(&menu, 2),
-            deviations: 2,
-        }],
+        Tier::Quick => vec![
+            Plan { worlds: fsworld::worlds(3, &NAMES, 3), bases, stacks: subsets_up_to(&menu, 2), deviations: 2 },
+            link_plan(3, 1),
+        ],
         Tier::Thorough => {
             let mut menu3 = menu.clone();
             menu3.push(Layer::Filter(2));
@@ -585,6 +596,7 @@ pub fn plan_histories(tier: Tier) -> Vec<Plan> {
                 Plan { worlds: fsworld::worlds(4, &NAMES, 3), bases: bases.clone(), stacks: subsets_up_to(&menu3, 3), deviations: 3 },
                 Plan { worlds: fsworld::worlds(5, &["a", "b"], 4), bases: bases.clone(), stacks: subsets_up_to(&menu, 2), deviations: 2 },
                 Plan { worlds: fsworld::worlds(6, &["a", "b"], 5), bases, stacks: subsets_up_to(&menu, 2), deviations: 1 },
+                link_plan(4, 2),
             ]
         },
     }
